@@ -813,6 +813,16 @@ fn find_text_ops() {
                 let got: Vec<(usize, usize)> = match &sel { None => res.split_text(needle).map(|t| (t.begin(), t.end())).collect(), Some(s) => s.split_text(needle).map(|t| (t.begin(), t.end())).collect() };
                 if got != want { println!("WITNESS {{\"clause\":\"split_text\",\"text\":{:?},\"range\":\"{}..{}\",\"delimiter\":{:?},\"got\":\"{:?}\",\"want\":\"{:?}\"}}", text, b, e, needle, got, want); return; }
             }
+            // find_text_regex with a literal pattern: the matches of the regex in the searched text, at absolute codepoint offsets
+            for needle in needles {
+                let re = regex::Regex::new(&regex::escape(needle)).unwrap();
+                let want: Vec<(usize, usize)> = re.find_iter(&sub).map(|m| (charpos(m.start()), charpos(m.end()))).collect();
+                let exprs = [re.clone()];
+                let got = std::panic::catch_unwind(std::panic::AssertUnwindSafe(|| -> Vec<(usize, usize)> { match &sel {
+                    None => res.find_text_regex(&exprs, None, true).unwrap().flat_map(|m| m.textselections().iter().map(|t| (t.begin(), t.end())).collect::<Vec<_>>()).collect(),
+                    Some(s) => s.find_text_regex(&exprs, None, true).unwrap().flat_map(|m| m.textselections().iter().map(|t| (t.begin(), t.end())).collect::<Vec<_>>()).collect() } }));
+                if got.as_ref().ok() != Some(&want) { println!("WITNESS {{\"clause\":\"find_text_regex\",\"text\":{:?},\"range\":\"{}..{}\",\"pattern\":{:?},\"got\":\"{:?}\",\"want\":\"{:?}\"}}", text, b, e, needle, got.ok(), want); return; }
+            }
             // trim_text
             for set in [vec![' '], vec!['a', ' '], vec!['é', 'x', 'X']] {
                 let trimmed = sub.trim_matches(|c| set.contains(&c));
